@@ -2,7 +2,7 @@
 structural obligation attached to its row is re-verified on every run (X1 for C05, A6 for C01)."""
 import re
 from .. import flow, site as S
-from ..facts import op_place, callee_def, AnchorMissing
+from ..facts import op_place, op_const, callee_def, AnchorMissing
 from ..common import strip_generics, PC
 from ..tables import failure_sites as T
 
@@ -156,6 +156,44 @@ def ob_tree_code(F, parent, fn, sites):
                     if v != code and b.edge_dominates(sb, tgt, bb):
                         ok = True
                 if code in listed and b.edge_dominates(sb, st["otherwise"], bb):
+                    ok = True
+            # ... or by `x != Code` / `x == Code` held in a flag
+            for sb in b.normal_blocks():
+                st = b.term(sb)
+                if ok or st["k"] != "switch" or len(st["targets"]) != 1:
+                    continue
+                sp = op_place(st["d"])
+                d0 = b.single_def(sp["l"]) if sp is not None and not sp["p"] else None
+                while d0 and d0[2] == "assign" and d0[3]["k"] == "use" and op_place(d0[3]["op"]) is not None and not op_place(d0[3]["op"])["p"]:
+                    d0 = b.single_def(op_place(d0[3]["op"])["l"])
+                if not (d0 and d0[2] == "call" and len(d0[3]["args"]) == 2):
+                    continue
+                cn = strip_generics(callee_def(d0[3]))
+                m = re.search(r"PartialEq::(eq|ne)$", cn)
+                if not m:
+                    continue
+                lhs = flow.describe(b, d0[3]["args"][0])
+                rv = flow.resolve_variant(b, d0[3]["args"][1])
+                is_code = bool(rv and rv[1] == "Code")
+                if not is_code:
+                    # `&TreeCodeType::Code` as a promoted constant: its one-byte image is the discriminant
+                    cur = d0[3]["args"][1]
+                    for _ in range(4):
+                        kk = op_const(cur) if isinstance(cur, dict) and "k" in cur else None
+                        if kk is not None:
+                            raw = ((kk.get("v") or {}).get("ptr") or {}).get("bytes") if isinstance(kk.get("v"), dict) else None
+                            is_code = bool(raw) and kk.get("ty", "").endswith("TreeCodeType") and int.from_bytes(bytes.fromhex(raw)[:1], "little") == code
+                            break
+                        pp = op_place(cur)
+                        dd1 = b.single_def(pp["l"]) if pp is not None else None
+                        if not dd1 or dd1[2] != "assign" or dd1[3]["k"] not in ("use", "ref"):
+                            break
+                        cur = dd1[3]["op"] if dd1[3]["k"] == "use" else {"c": dd1[3]["place"]}
+                if lhs not in (root, "deref(%s)" % root) or not is_code:
+                    continue
+                zero = st["targets"][0][1] if st["targets"][0][0] == 0 else None
+                not_code_edge = st["otherwise"] if m.group(1) == "ne" else zero
+                if not_code_edge is not None and b.edge_dominates(sb, not_code_edge, bb):
                     ok = True
             if not ok:
                 bad.append("%s (%s): argument not provably != Code" % (name, b.where(bb)))
